@@ -77,6 +77,7 @@ def front_case(draw):
     cfg["param_readonly"] = draw(st.booleans())
     cfg["fault_at"] = draw(st.integers(0, 5))
     cfg["data_dtype"] = draw(st.sampled_from(["float64", "float64", "float32", "int64"]))
+    cfg["param_byteorder"] = draw(st.sampled_from(["native", "native", "native", "swapped"]))
     cfg["reuse_buffers"] = False
     cfg["prior_calls_on_same_arrays"] = False
     if cfg["front"] == "joint":
@@ -111,10 +112,15 @@ def _front_call(cfg, readonly, layout_kind, p_readonly, p_layout):
     lam = e2e.make_lambda(cfg, nw)
     beta = e2e.make_beta(cfg, total)
     snaps = [ArgSnap(f"data series {i}", s) for i, s in enumerate(series)]
+    swapped = cfg.get("param_byteorder") == "swapped"
     if isinstance(lam, np.ndarray):
+        if swapped:
+            lam = lam.astype(lam.dtype.newbyteorder())        # same values, the other byte order (data read from a foreign file)
         lam = layout(lam, p_layout, p_readonly)
         snaps.append(ArgSnap("sparsity_weight matrix", lam))
     if isinstance(beta, np.ndarray):
+        if swapped:
+            beta = beta.astype(beta.dtype.newbyteorder())
         beta = layout(beta, p_layout if p_layout != "F" else "C", p_readonly)
         snaps.append(ArgSnap("label_switching_cost vector", beta))
     outcome = cfg["outcome"]
@@ -195,7 +201,8 @@ def opt_case(draw):
     W = draw(st.integers(1, 3))
     return {"N": N, "W": W, "seed": draw(st.integers(0, 2 ** 32 - 1)), "s_layout": draw(LAYOUTS), "s_readonly": draw(st.booleans()),
             "lam_matrix": draw(st.booleans()), "l_layout": draw(LAYOUTS), "l_readonly": draw(st.booleans()),
-            "fail": draw(st.sampled_from([None, None, "bad_lambda", "callback_raises"])),
+            "fail": draw(st.sampled_from([None, None, "bad_lambda", "callback_raises"])), "callback": draw(st.booleans()),
+            "rho": draw(st.sampled_from([1.0, 1.0, 0.3, 4.0])),
             "s_kind": draw(st.sampled_from(["cov", "cov", "qdq"]))}
 
 
@@ -219,7 +226,10 @@ def execute_opt(case, t):
         if isinstance(lam0, np.ndarray):
             lam = layout(lam0, case["l_layout"], l_ro)
             snaps.append(ArgSnap("sparsity_weight matrix", lam))
-        kw = {}
+        kw = {"rho": case.get("rho", 1.0)}
+        if case.get("callback") and case["fail"] != "callback_raises":
+            from props.C02 import balancing_callback
+            kw["rho_update"] = balancing_callback
         if case["fail"] == "bad_lambda":
             lam = None
         if case["fail"] == "callback_raises":
